@@ -1,5 +1,7 @@
 import Driver.Common
 import CoapVerif.Model.Retransmit
+import CoapVerif.Model.RetransmitKinds
+import CoapVerif.Model.RetransmitHistory
 import CoapVerif.Spec.Retransmit
 /-!
 Driver for C06.  One scenario per line (ops separated by `|`, see harness/c06/c06_test.go).
@@ -9,10 +11,13 @@ Driver for C06.  One scenario per line (ops separated by `|`, see harness/c06/c0
 namespace Driver.C06
 open CoapVerif
 open CoapVerif.Model.Retransmit (Params State Entry Res Phase)
+open CoapVerif.Model.RetransmitKinds (XState XEv XRes Out)
 
 inductive Op
   | cfg (a m n : Nat)
   | send (id : Nat) (dl : Option Nat)
+  | ping (id : Nat) (dl : Option Nat)     -- Conn.Ping(ctx)
+  | wcon (id : Nat) (dl : Option Nat)     -- Conn.WriteMessage of a confirmable message that is not a request
   | sleep (d : Nat)
   | tick (ahead : Nat)
   | ack (id : Nat)
@@ -48,6 +53,28 @@ def parseOp (s : String) : Option Op :=
   | ["hsend", id, dl, _kind] => do
     let d ← if dl = "-" then some none else dl.toNat?.map some
     some (.send (← id.toNat?) d)
+  | ["ping", id, dl] => do
+    let d ← if dl = "-" then some none else dl.toNat?.map some
+    some (.ping (← id.toNat?) d)
+  | ["wcon", id, dl] => do
+    let d ← if dl = "-" then some none else dl.toNat?.map some
+    some (.wcon (← id.toNat?) d)
+  | ["wcon", id, dl, _kind] => do
+    let d ← if dl = "-" then some none else dl.toNat?.map some
+    some (.wcon (← id.toNat?) d)
+  -- the two other entrances of a confirmable request (judged only, the model prints n/a): `wreq` = Conn.WriteMessage of a
+  -- confirmable request - one way, completes (`acked`) when a message with its ID comes back: judged like a confirmable
+  -- non-request write (count, spacing, identity, no copy after a stop, completion; its NSTART slot is not judged);
+  -- `obs` = Conn.DoObserve - the registration GET, then the first notification: judged like a request of Conn.Do
+  | ["wreq", id, dl] => do
+    let d ← if dl = "-" then some none else dl.toNat?.map some
+    some (.wcon (← id.toNat?) d)
+  | ["wreq", id, dl, _kind] => do
+    let d ← if dl = "-" then some none else dl.toNat?.map some
+    some (.wcon (← id.toNat?) d)
+  | ["obs", id, dl] => do
+    let d ← if dl = "-" then some none else dl.toNat?.map some
+    some (.send (← id.toNat?) d)
   -- burst: unrelated messages from the peer; no effect on any request
   | ["burst", _k] => some (.sleep 0)
   | ["sleep", d] => d.toNat?.map .sleep
@@ -78,51 +105,52 @@ def sortByKey {α : Type} (key : α → Nat) (l : List α) : List α := l.foldl 
 
 def joinOrDash (xs : List String) : String := if xs.isEmpty then "-" else ",".intercalate xs
 
-/-- Bytes of the first transmission of a request (the reference every copy is compared with). -/
-def firstMsg (log : List Entry) (id : Nat) : Option Nat :=
-  log.findSome? (fun e => match e with | .tx i 0 _ m => if i == id then some m else none | _ => none)
+def fmtXRes : XRes → String
+  | .base r => fmtRes r
+  | .acked => "acked"
 
-def fmtSeg (log : List Entry) (entries : List Entry) (oth : List String) : String :=
-  let txs := entries.filterMap (fun e => match e with | .tx id _ t m => some (id, t, m) | _ => none)
-  let rets := entries.filterMap (fun e => match e with | .ret id r t => some (id, r, t) | _ => none)
-  let txs := sortByKey (fun (p : Nat × Nat × Nat) => p.1) txs
-  let rets := sortByKey (fun (p : Nat × Res × Nat) => p.1) rets
-  let mark := fun (p : Nat × Nat × Nat) => if firstMsg log p.1 == some p.2.2 then "=" else "!"
-  s!"tx={joinOrDash (txs.map (fun p => s!"{p.1}.{p.2.1}.{mark p}"))} ret={joinOrDash (rets.map (fun p => s!"{p.1}.{fmtRes p.2.1}.{p.2.2}"))} oth={joinOrDash oth}"
+def fmtSeg (outs : List Out) (oth : List String) : String :=
+  let txs := outs.filterMap (fun e => match e with | .tx id t same => some (id, t, same) | _ => none)
+  let rets := outs.filterMap (fun e => match e with | .ret id r t => some (id, r, t) | _ => none)
+  let txs := sortByKey (fun (p : Nat × Nat × Bool) => p.1) txs
+  let rets := sortByKey (fun (p : Nat × XRes × Nat) => p.1) rets
+  let mark := fun (p : Nat × Nat × Bool) => if p.2.2 then "=" else "!"
+  s!"tx={joinOrDash (txs.map (fun p => s!"{p.1}.{p.2.1}.{mark p}"))} ret={joinOrDash (rets.map (fun p => s!"{p.1}.{fmtXRes p.2.1}.{p.2.2}"))} oth={joinOrDash oth}"
 
 /-- The request has not been transmitted (it waits for its NSTART slot, or ended before getting one): the harness injects no response for it
     (a response cannot precede the request; its message ID is not even known). -/
-def queued (s : State) (id : Nat) : Bool :=
-  !s.log.any (fun e => match e with | .tx i _ _ _ => i == id | _ => false)
+def queued (s : XState) (id : Nat) : Bool := Model.RetransmitKinds.queued s.base id && !Model.RetransmitKinds.isX s id
 
 /-- Model events an op stands for in state `s` (sleep is expanded against the state). -/
-def opEvents (P : Params) (s : State) : Op → List Model.Retransmit.Ev
+def opEvents (P : Params) (s : XState) : Op → List XEv
   | .cfg _ _ _ => []
-  | .send id dl => [.send id (2 * id) (dl.map (· + s.now))]
-  | .sleep d => Model.Retransmit.sleepEvents P s d
+  | .send id dl => [.send id (2 * id) dl]
+  | .ping id dl => [.ping id dl]
+  | .wcon id dl => [.wcon id dl]
+  | .sleep d => Model.RetransmitKinds.sleepEvents P s d
   | .tick a => [.tick a]
   | .ack id => [.recvMid id .ack]
   | .rst id => [.recvMid id .rst]
-  | .pig id tag => if queued s id then [] else [.recvMid id (.pig tag)]
-  | .resp id _ tag => if queued s id then [] else [.resp id tag]
+  | .pig id tag => [.recvMid id (.pig tag)]     -- (the model injects nothing for a request that has not been transmitted)
+  | .resp id _ tag => [.resp id tag]
   | .cancel id => [.cancel id .ctx]
   | .mut id => [.mut id (2 * id + 1)]
 
-def opOther (s : State) : Op → List String
+def opOther (s : XState) : Op → List String
   | .resp id true _ => if queued s id then [] else ["ack.0"]     -- a confirmable separate response is acknowledged
   | _ => []
 
 def model (line : String) : String :=
   -- a refused first transmission is outside the model (which has no failing writes): judged only
-  if (line.splitOn "sendf").length > 1 || (line.splitOn " udpsrv").length > 1 then "n/a" else
+  if (line.splitOn "sendf").length > 1 || (line.splitOn " udpsrv").length > 1 || (line.splitOn "wreq ").length > 1
+      || (line.splitOn "obs ").length > 1 then "n/a" else
   match parseOps line with
   | some (.cfg a m n :: ops) =>
     let P : Params := ⟨a, m, n⟩
-    let (_, segs) := ops.foldl (fun (acc : State × List String) op =>
+    let (_, segs) := ops.foldl (fun (acc : XState × List String) op =>
       let s := acc.1
-      let s' := Model.Retransmit.runFrom P s (opEvents P s op)
-      let added := s'.log.take (s'.log.length - s.log.length)
-      (s', acc.2 ++ [fmtSeg s'.log added (opOther s op)])) (Model.Retransmit.init, ["tx=- ret=- oth=-"])
+      let r := Model.RetransmitKinds.runFrom P s (opEvents P s op)
+      (r.1, acc.2 ++ [fmtSeg r.2 (opOther s op)])) (Model.RetransmitKinds.init, ["tx=- ret=- oth=-"])
     " | ".intercalate segs
   | _ => "bad-op"
 
@@ -132,6 +160,8 @@ open CoapVerif.Spec.Retransmit (Step Tx Ret Cfg Verdict)
 def toSpecEv : Op → Spec.Retransmit.Ev
   | .cfg _ _ _ => .sleep 0
   | .send id dl => .send id dl
+  | .ping id dl => .ping id dl
+  | .wcon id dl => .wcon id dl
   | .sleep d => .sleep d
   | .tick a => .tick a
   | .ack id => .recvMid id .ack
@@ -144,7 +174,7 @@ def toSpecEv : Op → Spec.Retransmit.Ev
 def parseRes (s : String) : Option Spec.Retransmit.Res :=
   if s.startsWith "ok:" then (s.drop 3).toString.toNat?.map .ok
   else match s with
-    | "ctx" => some .ctx | "deadline" => some .deadline | "nstart" => some .nstart | _ => some .other
+    | "ctx" => some .ctx | "deadline" => some .deadline | "nstart" => some .nstart | "acked" => some .acked | _ => some .other
 
 def parseList {α : Type} (s : String) (f : String → Option α) : Option (List α) :=
   if s = "-" then some [] else (s.splitOn ",").mapM f
